@@ -215,7 +215,7 @@ Definition getExtensionAs {R} (cast : ext -> option R) (exts : option (list ext)
 
 class RegionTranslator:
     def __init__(self, unit_name, schema, namespace, fdef, start, end, inputs, ext_registry,
-                 externals=None, ignore_self_stores=True, opaque=None):
+                 externals=None, ignore_self_stores=True, opaque=None, boundaries=True, effects=None):
         self.unit = unit_name
         self.schema = schema
         self.ns = namespace
@@ -227,6 +227,10 @@ class RegionTranslator:
         # source text of an expression over the endpoint's own state -> (input name, type): the value is an
         # arbitrary input of the model (the theorems quantify over it; the tie observes the real value)
         self.opaque = opaque or {}
+        # boundaries=False: small regions are proved by plain path enumeration (no statement-boundary lemmas,
+        # hence guards of earlier top-level statements stay available to later ones)
+        self.use_boundaries = boundaries
+        self.effects = set(effects or ())
         self.defs = []                        # emitted continuation definitions (text)
         self.nk = 0
         self.boundaries = []
@@ -318,7 +322,7 @@ class RegionTranslator:
             return '(fun z_ : Z => negb (z_ =? 0))'
         if k in ('list', 'bytes'):
             return 'nonempty'
-        if k in ('ver', 'tag'):
+        if k in ('ver', 'tag', 'ext'):      # extension objects define neither __len__ nor __bool__ (checked per class)
             return 'always_true'
         if k == 'none':
             return '(fun _ : unit => false)'
@@ -426,6 +430,11 @@ class RegionTranslator:
             return self.call(e, env)
         if isinstance(e, ast.ListComp):
             return self.listcomp(e, env)
+        if isinstance(e, ast.List) and e.elts:
+            ts = [self.expr(x, env) for x in e.elts]
+            if any(t.ty != ts[0].ty for t in ts):
+                raise Refuse('heterogeneous list literal (line %d)' % e.lineno)
+            return self.seq(ts, lambda c: '[%s]' % '; '.join(c), LIST(ts[0].ty))
         if isinstance(e, ast.IfExp):
             c = self.cond(e.test, env)
             a, b = self.expr(e.body, env), self.expr(e.orelse, env)
@@ -461,6 +470,8 @@ class RegionTranslator:
 
     def getattr_term(self, v, attr, node):
         ty = v.ty
+        if ty == EXT and attr == 'extType':
+            return self.seq([v], lambda c: 'ext_type %s' % paren(c[0]), Z)
         if ty[0] == 'obj' and self.schema.mfield(ty[1], attr) is not None:
             fty, fn = self.schema.mfield(ty[1], attr)
             return self.seq([v], lambda c: '%s %s' % (fn, paren(c[0])), fty, pure_result=False)
@@ -801,6 +812,11 @@ class RegionTranslator:
                 if ppure:
                     return self.seq([lst], lambda c: 'find_first %s %s' % (plam, paren(c[0])), OPT(ety))
                 return self.seq([lst], lambda c: 'find_firstM %s %s' % (plam, paren(c[0])), OPT(ety), pure_result=False)
+            if name == 'set' and len(e.args) == 1 and isinstance(e.args[0], ast.GeneratorExp):
+                g = e.args[0]
+                lc = self.listcomp(ast.ListComp(elt=g.elt, generators=g.generators, lineno=e.lineno), env)
+                q = eqb(lc.ty[1])
+                return self.seq([lc], lambda c: 'dedup %s %s' % (q, paren(c[0])), lc.ty)
             if name == 'set' and len(e.args) == 1:
                 a = self.expr(e.args[0], env)
                 lst, ety = self.as_list(a, e.args[0], 'iter')
@@ -817,7 +833,7 @@ class RegionTranslator:
             key = ast.unparse(f)
             if key in self.externals:
                 argtys, rty = self.externals[key]
-                if r is None or r[0] == 'missing' or not callable(r[1]):
+                if not key.startswith('self.') and (r is None or r[0] == 'missing' or not callable(r[1])):
                     return Term(self.site('AttributeError', f), rty, False)
                 args = [self.expr(a, env) for a in e.args] + [self.expr(k.value, env) for k in e.keywords]
                 if [a.ty for a in args] != list(argtys):
@@ -937,6 +953,28 @@ class RegionTranslator:
             raise Refuse('yield outside the _sendError idiom (line %d)' % s.lineno)
         if isinstance(s, ast.Expr) and isinstance(s.value, ast.Constant):
             return cont(env)
+        if isinstance(s, ast.Expr) and isinstance(s.value, ast.Call) and isinstance(s.value.func, ast.Attribute) and \
+                s.value.func.attr == 'add' and isinstance(s.value.func.value, ast.Name) and \
+                env.get(s.value.func.value.id, (None,))[0] == 'list' and len(s.value.args) == 1:
+            # S.add(v) on a local set (represented as a list): rebinding
+            name = s.value.func.value.id
+            v = self.expr(s.value.args[0], env)
+            if v.ty != env[name][1]:
+                raise Refuse('set.add of %r into %r (line %d)' % (v.ty, env[name], s.lineno))
+            r = self.seq([v], lambda c: '%s :: %s' % (paren(c[0]), name), env[name])
+            if r.pure:
+                return 'let %s := %s in\n%s' % (name, r.code, cont(env))
+            return '%s <~ %s ;;\n%s' % (name, mparen(r.code), cont(env))
+        if isinstance(s, ast.Expr) and isinstance(s.value, ast.Call) and ast.unparse(s.value) in self.effects:
+            # a call made only for its effect on the endpoint's OWN objects (declared in the unit, with the
+            # reason why the rest of the region does not observe the effect): arguments evaluated, effect dropped
+            args = [self.expr(a, env) for a in s.value.args]
+            recv = self.expr(s.value.func.value, env) if isinstance(s.value.func, ast.Attribute) else None
+            ts = ([recv] if recv is not None else []) + args
+            r = self.seq(ts, lambda c: 'tt', UNIT)
+            if r.pure:
+                return cont(env)
+            return '%s <~ %s ;;\n%s' % (self.tmp('u'), mparen(r.code), cont(env))
         if isinstance(s, ast.Assign):
             if len(s.targets) != 1:
                 raise Refuse('multiple assignment (line %d)' % s.lineno)
@@ -982,6 +1020,19 @@ class RegionTranslator:
                 if v.pure:
                     return cont(env)
                 return '%s <~ %s ;;\n%s' % (self.tmp('u'), mparen(v.code), cont(env))
+            if isinstance(t, ast.Attribute) and isinstance(t.value, ast.Name) and t.value.id in env and \
+                    ast.unparse(t) in self.effects:
+                # store into an attribute of a local OWN object (declared effect): the receiver must not be None
+                recv = Term(t.value.id, env[t.value.id])
+                if recv.ty[0] == 'opt':
+                    c0 = self.site('AttributeError', t)
+                    chk = 'match %s with None => %s | Some _ => OK tt end' % (t.value.id, c0)
+                    code = '%s <~ %s ;;\n%s' % (self.tmp('u'), mparen(chk), cont(env))
+                else:
+                    code = cont(env)
+                if v.pure:
+                    return code
+                return '%s <~ %s ;;\n%s' % (self.tmp('u'), mparen(v.code), code)
             raise Refuse('assignment target %s (line %d)' % (ast.unparse(t), s.lineno))
         if isinstance(s, ast.If):
             c = self.cond(s.test, env)
@@ -1043,17 +1094,35 @@ class RegionTranslator:
     # ------------------------------------------------------------ driver
     def translate(self, local_types=None):
         self.local_types = local_types or {}
-        body = self.fdef.body
-        idx0 = idx1 = None
-        for i, s in enumerate(body):
-            txt = ast.unparse(s)
-            if idx0 is None and txt.startswith(self.start):
-                idx0 = i
-            elif idx0 is not None and txt.startswith(self.end):
-                idx1 = i
-                break
-        if idx0 is None or idx1 is None:
+        def find(body):
+            """the statement list (at any nesting depth) that contains the start marker, with the end marker
+            later in the SAME list"""
+            idx0 = idx1 = None
+            for i, s in enumerate(body):
+                txt = ast.unparse(s)
+                if idx0 is None and txt.startswith(self.start):
+                    idx0 = i
+                elif idx0 is not None and txt.startswith(self.end):
+                    idx1 = i
+                    break
+            if idx0 is not None and idx1 is not None:
+                return body, idx0, idx1
+            for s in body:
+                for fld in ('body', 'orelse', 'finalbody'):
+                    sub = getattr(s, fld, None)
+                    if isinstance(sub, list) and sub and isinstance(sub[0], ast.stmt):
+                        r = find(sub)
+                        if r is not None:
+                            return r
+                for h in getattr(s, 'handlers', []) or []:
+                    r = find(h.body)
+                    if r is not None:
+                        return r
+            return None
+        r = find(self.fdef.body)
+        if r is None:
             raise Refuse('region markers not found in %s (start=%r end=%r)' % (self.fdef.name, self.start, self.end))
+        body, idx0, idx1 = r
         region = body[idx0:idx1]
         self.lines = (region[0].lineno, region[-1].end_lineno)
         env = dict(self.inputs)
@@ -1069,14 +1138,15 @@ class RegionTranslator:
         if not stmts:
             return 'OK tt'
         s = stmts[0]
-        if isinstance(s, (ast.If, ast.For, ast.Try)) and self.is_alert_idiom(s) is None and len(stmts) > 1:
+        if self.use_boundaries and isinstance(s, (ast.If, ast.For, ast.Try)) and self.is_alert_idiom(s) is None \
+                and len(stmts) > 1:
             k = self.shared(lambda e2: self.top(stmts[1:], e2), limit=-1, boundary=True)
         else:
             def k(e2):
                 return self.top(stmts[1:], e2)
         return self.block([s], env, k)
 
-    def emit_proofs(self, sites_name, pre=None):
+    def emit_proofs(self, sites_name, pre=None, entry_assumes=False):
         """Generated proof script: one lemma per boundary continuation (in definition order, i.e.
         last statement first) and one for the entry point, all by the generic symbolic-execution
         tactic; the kernel checks them like any other proof.
@@ -1091,7 +1161,8 @@ class RegionTranslator:
             hyp = '%s %s -> ' % (pre[0], ' '.join(pre[1]))
             out.append('#[local] Hint Extern 1 (%s %s) => c08_pre : c08gen.\n' % (pre[0], ' '.join('_' for _ in pre[1])))
         for name in self.boundaries + [self.unit]:
-            h = hyp if name != self.unit else ''
+            # entry_assumes: the fact is a HYPOTHESIS about the endpoint's own state (visible in the exported theorem)
+            h = hyp if (name != self.unit or entry_assumes) else ''
             out.append('Lemma %s_ok : forall %s, %scrash_in %s (%s %s).' % (
                 name, ' '.join(self.kont_params[name]), h, sites_name, name, ' '.join(self.kont_params[name])))
             out.append('Proof. intros. unfold %s. c08_symex. Qed.' % name)
